@@ -105,7 +105,11 @@ where
         }
 
         if let Some(sleep) = this.sleep.as_pin_mut() {
-            futures::ready!(sleep.poll(cx));
+            // Poll the timer outside of tokio's cooperative budget: an inner future that uses up
+            // the budget every time it is polled would otherwise keep `Sleep` from ever reporting
+            // that the deadline has passed.
+            let mut sleep = tokio::task::unconstrained(sleep);
+            futures::ready!(Pin::new(&mut sleep).poll(cx));
             return Poll::Ready(Err(TimeoutExpired(()).into()));
         }
 
